@@ -2537,7 +2537,8 @@ class SeriesHE(Series):
 
     def __hash__(self) -> int:
         if not hasattr(self, '_hash'):
-            self._hash = hash(tuple(self.index.values))
+            # iterate labels: rows of a hierarchical index are tuples (its 2D values array has unhashable rows)
+            self._hash = hash(tuple(self.index))
         return self._hash
 
     def to_series(self) -> Series:
